@@ -15,6 +15,7 @@ structure RawEv where
   ok : Bool
   live : List Int := []
   last : List (Int × Int) := []
+  why : String := ""
 
 def parseEv (j : Json) : Except String RawEv := do
   let k ← getStr j "k"
@@ -30,7 +31,8 @@ def parseEv (j : Json) : Except String RawEv := do
         | some a, some b => some (a, b)
         | _, _ => none
     | _ => []
-  return { k, c, v, ok, live, last }
+  let why := (getStr j "why").toOption.getD ""
+  return { k, c, v, ok, live, last, why }
 
 structure Session where
   evs : List RawEv
